@@ -20,6 +20,7 @@ import (
 	"encoding/json"
 	"io"
 	"io/ioutil"
+	"sort"
 
 	"google.golang.org/protobuf/proto"
 
@@ -499,6 +500,11 @@ func (d *DB) handleShardLookup(req pb.LookupRequest) []byte {
 		}
 		shards = append(shards, &cc)
 	}
+	// map iteration order differs between replicas and between calls, the
+	// answer must not
+	sort.Slice(shards, func(i, j int) bool {
+		return shards[i].ShardId < shards[j].ShardId
+	})
 	resp.Shards = shards
 	result, err := proto.Marshal(&resp)
 	if err != nil {
